@@ -406,12 +406,27 @@ def int_wrapping(ctx, args, st):
     return ret(st, ctx.ex.binop({'wrapping_add': 'Add', 'wrapping_sub': 'Sub', 'wrapping_mul': 'Mul'}[op], a, args[1]))
 
 
+@model(r'^(?:core::num::<impl (\w+)>|(\w+))::(saturating_neg|saturating_abs)$')
+def int_saturating_neg(ctx, args, st):
+    a = args[0]
+    if not isinstance(a, Int) or not a.signed: return None
+    mn = z3.BitVecVal(-(1 << (a.bits - 1)), a.bits); mx = z3.BitVecVal((1 << (a.bits - 1)) - 1, a.bits)
+    if ctx.callee.endswith('saturating_neg'):
+        return ret(st, Int(z3.simplify(z3.If(a.e == mn, mx, -a.e)), a.ty))
+    return ret(st, Int(z3.simplify(z3.If(a.e == mn, mx, z3.If(a.e < 0, -a.e, a.e))), a.ty))
+
+
 @model(r'^(?:core::num::<impl (\w+)>|(\w+))::(saturating_sub|saturating_add)$')
 def int_saturating(ctx, args, st):
     a, b = args
     if not isinstance(a, Int): return None
     op = ctx.callee.rsplit('::', 1)[-1]
-    if a.signed: raise Unsupported('signed saturating')
+    if a.signed:
+        bits = a.bits
+        mn = z3.BitVecVal(-(1 << (bits - 1)), bits); mx = z3.BitVecVal((1 << (bits - 1)) - 1, bits)
+        wide = (z3.SignExt(1, a.e) + z3.SignExt(1, b.e)) if op == 'saturating_add' else (z3.SignExt(1, a.e) - z3.SignExt(1, b.e))
+        r = z3.If(wide > z3.SignExt(1, mx), mx, z3.If(wide < z3.SignExt(1, mn), mn, z3.Extract(bits - 1, 0, wide)))
+        return ret(st, Int(z3.simplify(r), a.ty))
     if op == 'saturating_sub':
         return ret(st, Int(z3.simplify(z3.If(z3.ULT(a.e, b.e), z3.BitVecVal(0, a.bits), a.e - b.e)), a.ty))
     mx = z3.BitVecVal((1 << a.bits) - 1, a.bits)
